@@ -5,6 +5,7 @@ package hdf5
 import (
 	"encoding/binary"
 	"fmt"
+	"hash/crc32"
 	"math"
 	"os"
 	"path/filepath"
@@ -518,6 +519,46 @@ func vfC12Run(dir string, c vfC12Case) (problems []string, detail map[string]any
 			detail["collections"] = len(cols)
 		}
 	}
+	// the later datasets of the session (/w0, /w1, ...) must hold their elements too: each
+	// element reference resolved by the harness (independent view of the dump)
+	for k, al := range c.After {
+		var wd *Dataset
+		f.Walk(func(path string, o Object) {
+			if x, ok := o.(*Dataset); ok && path == fmt.Sprintf("/w%d", k) {
+				wd = x
+			}
+		})
+		if wd == nil {
+			problems = append(problems, "later-dataset-not-found")
+			continue
+		}
+		whdr, err := core.ReadObjectHeader(f.osFile, wd.address, f.sb)
+		if err != nil {
+			problems = append(problems, "later-dataset-header-unreadable")
+			continue
+		}
+		wi, err := core.ReadDatasetInfo(whdr, f.sb)
+		if err != nil || wi.Layout == nil || wi.Dataspace == nil {
+			problems = append(problems, "later-dataset-info-error")
+			continue
+		}
+		_, wraws := c.T.mk(al, 2)
+		got := strings.Split(strings.TrimSuffix(vfVLenView(f.osFile, wi.Layout.DataAddress, wi.Dataspace.Dimensions), ","), ",")
+		if len(got) != len(wraws) {
+			detail["later_dataset"], detail["view"] = k, fmt.Sprint(got)
+			problems = append(problems, "later-dataset-element-count-differs")
+			continue
+		}
+		for e, raw := range wraws {
+			want := fmt.Sprintf("%d:%08x", len(raw), crc32.ChecksumIEEE(raw))
+			wantNul := fmt.Sprintf("%d:%08x", len(raw)+1, crc32.ChecksumIEEE(append(append([]byte{}, raw...), 0)))
+			if got[e] != want && !(c.T.name == "vlen-string" && got[e] == wantNul) && !(len(raw) == 0 && got[e] == "null") {
+				detail["later_dataset"], detail["element"], detail["got"], detail["want"] = k, e, got[e], want
+				problems = append(problems, "later-dataset-element-differs")
+				break
+			}
+		}
+	}
 	sort.Strings(problems)
 	return vfUniq(problems), detail
 }
@@ -600,6 +641,21 @@ func TestVerif_C12(t *testing.T) {
 				}
 			}
 		}
+	}
+	// exact-fill session family: two datasets share one collection that ends up exactly full
+	// (4080 bytes of objects), full to within 8 bytes, and 24 bytes short of full; a third small
+	// dataset follows (its elements start the next collection)
+	rep := func(n, l int) []int {
+		out := make([]int, n)
+		for i := range out {
+			out[i] = l
+		}
+		return out
+	}
+	for _, second := range [][]int{rep(70, 8), append(rep(69, 8), 0), rep(69, 8)} {
+		cases = append(cases, vfC12Case{T: types[0], SB: 2, Lens: rep(100, 8), After: [][]int{second, {3}}})
+		cases = append(cases, vfC12Case{T: types[0], SB: 2, Lens: rep(100, 8), After: [][]int{second}, Plain: true})
+		cases = append(cases, vfC12Case{T: types[0], SB: 2, Lens: second, First: []int{1}, After: [][]int{rep(100, 8)}})
 	}
 	r.Rule("variable-length strings: all element lists of length 1..3 over the length alphabet {0,1,7,8,9,4063,4064,4065,4072,4080,4081,65537} x superblock {2,3} x {contiguous, chunked}; content classes (ASCII, embedded NUL, multi-byte UTF-8); six numeric base types x 9 length lists x 2 layouts; roll-over families of 254..257 (thorough up to 10^4) equal elements; after reopen the datatype must be variable-length of the written base type, the library's element readers must return the elements or an error, and an independent decoder resolves every element reference into independently parsed heap collections (declared size, object sizes, alignment, unique indices, free-space record); every case is distinct; session families: 7 length lists for /v x {a later variable-length dataset with each of the 7 lists, /v written twice (first with each of the 7 lists), two later datasets plus a fixed-size neighbour, a fixed-size neighbour only} x {strings, int32 sequences} x 2 layouts")
 	vkit.ParallelFor(len(cases), func(i int) {
